@@ -13,7 +13,7 @@ RULE = (
     "divisions/meta are not derivable from its operands alone (set_index / sort_values / repartition / quantile-based) or a partition-filtered or fused node; distinct by (program hash, form)"
 )
 ASSUMPTIONS = ["UDFs are importable from vlib.udfs in the receiving interpreter (pickled by reference)", "delayed-backed sources are picklable graphs of pure functions"]
-BUDGET_S = {"quick": 170, "thorough": 3000}
+BUDGET_S = {"quick": 240, "thorough": 3000}
 NO_FRESH_CONFIRM = True  # every case already runs in fresh interpreters
 MINIMISE_EVALS = {"quick": 60, "thorough": 200}
 
@@ -51,11 +51,25 @@ def big_cases(tier):
     return out
 
 
+def unsorted_source_cases(tier):
+    """from_pandas(sort=True) on frames whose rows are not in index order (the expression holds the user's frame, the graph the sorted one)"""
+    S = templates.S
+    out = []
+    perms = [[3, 0, 7, 1, 6, 2, 5, 4], [7, 6, 5, 4, 3, 2, 1, 0]] + ([[1, 0, 2, 3, 4, 5, 6, 7]] if tier == "thorough" else [])
+    for perm in perms:
+        for nparts in (1, 3):
+            t = templates.table("t0", templates.ROWS_A, layout={"kind": "from_pandas", "npartitions": nparts, "sort": True, "row_perm": perm})
+            for steps in ([S("v1", "filter_pred", ["t0"], pred=templates.P("gt", "i", 2))], [S("v1", "cols", ["t0"], cols=["f", "k"]), S("v2", "binop_scalar", ["v1"], op="add", c=1, r=False)],
+                          [S("v1", "col", ["t0"], col="i"), S("v2", "reduce", ["v1"], how="sum", split_every=None)]):
+                out.append({"tables": [t], "steps": steps, "out": [steps[-1]["id"]], "config": {"shuffle": "tasks"}, "template": "unsorted-source"})
+    return out
+
+
 def systematic(tier):
     cs = [c for c in templates.c01_cases(tier)]
     if tier == "quick":
-        cs = cs[::9]
-    cs = big_cases(tier) + cs
+        cs = cs[::14]
+    cs = big_cases(tier) + unsorted_source_cases(tier) + cs
     return [{"batch": cs[i : i + BATCH]} for i in range(0, len(cs), BATCH)]
 
 
